@@ -125,7 +125,7 @@ func c05CheckFrags(r *sim.Run, who string, p *work.Production, frs []work.FragRe
 
 func c05Run(r *sim.Run) {
 	t := r.T
-	opts := work.PackOpts{MaxTracks: 3, MaxSegs: 3, MaxFrags: 3, MaxSamples: 6, Foreign: true, NALVideo: t.Bool(), BigSamples: t.Chance(100), SplitTruns: true, MixIntervalFull: true, HugeDurs: true, LargeMdat: true, WriteFaults: true, ManySamples: true}
+	opts := work.PackOpts{MaxTracks: 3, MaxSegs: 3, MaxFrags: 3, MaxSamples: 6, Foreign: true, NALVideo: t.Bool(), BigSamples: t.Chance(100), SplitTruns: true, MixIntervalFull: true, HugeDurs: true, LargeMdat: true, WriteFaults: true, ManySamples: true, EncodeBetween: true}
 	var p *work.Production
 	var err error
 	r.Guard("packager", func() { p, err = work.Package(r, opts) })
